@@ -83,4 +83,14 @@ CHECKS["C19"] = dict(
            dict(name="throttle", run="^TestThrottleRate$", quick=150, thorough=4000, shards_thorough=4)],
 )
 
+CHECKS["C20"] = dict(
+    pkg="c20", race=True, level="exploration", timeout_quick=600, timeout_thorough=2400,
+    technique="model-based property testing (rapid) of decorator stacks over scripted Pub/Subs: transparency by pointer identity, delay precedence model, exact Prometheus sample counts from a private registry",
+    level_text="Generated decorator stacks (message transform, delay.Publisher, metrics decorators incl. the same one twice) are driven with generated batches, delay sources, PublisherConfig settings and failure scripts; the inner publisher/subscriber records every call, which is compared with the transparency and delay-precedence model; Prometheus counts are gathered from a private registry and must equal the harness' own counts, stand-alone and in a Router with handler outcomes success/error/panic/publish failure.",
+    level_note="Trusted: scripted Pub/Subs, the precedence model in c20_test.go, prometheus Gather(). Label values other than success/acked are summed over. The handler metrics middleware is installed once.",
+    steps=[dict(name="pubstacks", run="^TestPublisherStacks$", quick=1500, thorough=60000, shards_thorough=8),
+           dict(name="substacks", run="^TestSubscriberStacks$", quick=300, thorough=8000, shards_thorough=4),
+           dict(name="routermetrics", run="^TestRouterMetrics$", quick=300, thorough=8000, shards_thorough=4)],
+)
+
 NOT_APPLICABLE = {}
